@@ -234,3 +234,51 @@ def _absolute_id_planted(k0: int, x0: int, m_o: bool, m_i: bool) -> bool:
     finally:
         tr.find_top_boxed_args = real
         tr.trace_stack.top = -1
+
+
+# ---- a VJP function stays usable after one of its calls failed part-way through the backward pass ------------------
+
+
+def reuse_after_fault(k0, pos, x0, g0, g1, twice):
+    from vf.ch.qtypes import qadd
+
+    tr.trace_stack.top = k0
+    try:
+        STATE.update(fwd=0, bwd=0, fail_fwd=-1, fail_bwd=-1)
+
+        def f(x):
+            a = step(step(x))  # 9 x
+            b = step(x)  # 3 x
+            return qadd(qadd(a, b), step(a))  # 9x + 3x + 27x = 39 x : a fan-out graph with four rule applications
+
+        vjp, y = make_vjp(f, Q(x0))
+        fresh = vjp(Q(g1)).v  # a fault-free call first (the closure is reusable: C10)
+        STATE.update(bwd=0, fail_bwd=pos)
+        try:
+            vjp(Q(g0))
+            failed = False
+        except Boom:
+            failed = True
+        STATE.update(bwd=0, fail_bwd=-1)
+        again = vjp(Q(g1)).v
+        ok = failed and fresh == 39 * g1 and again == 39 * g1
+        if twice:
+            STATE.update(bwd=0, fail_bwd=pos)
+            try:
+                vjp(Q(g0))
+            except Boom:
+                pass
+            STATE.update(bwd=0, fail_bwd=-1)
+            ok = ok and vjp(Q(g0)).v == 39 * g0
+        return ok and y.v == 39 * x0
+    finally:
+        tr.trace_stack.top = -1
+        STATE.update(fwd=0, bwd=0, fail_fwd=-1, fail_bwd=-1)
+
+
+def _reuse_after_fault(k0: int, pos: int, x0: int, g0: int, g1: int, twice: bool) -> bool:
+    """
+    pre: -1 <= k0 and 1 <= pos <= 4
+    post: _
+    """
+    return reuse_after_fault(k0, pos, x0, g0, g1, twice)
